@@ -4,8 +4,11 @@ import (
 	"flag"
 	"fmt"
 	"os"
+	"os/signal"
+	"runtime"
 	"runtime/pprof"
 	"sort"
+	"syscall"
 	"time"
 
 	"verif/govc/exec"
@@ -16,6 +19,19 @@ func main() {
 		f, _ := os.Create(pf)
 		pprof.StartCPUProfile(f)
 		defer pprof.StopCPUProfile()
+	}
+	if os.Getenv("GOVC_STACK") != "" {
+		// debugging aid: on SIGTERM (e.g. from `timeout`) dump all goroutine stacks
+		ch := make(chan os.Signal, 1)
+		signal.Notify(ch, syscall.SIGTERM)
+		go func() {
+			<-ch
+			pprof.StopCPUProfile()
+			buf := make([]byte, 1<<20)
+			n := runtime.Stack(buf, true)
+			os.Stderr.Write(buf[:n])
+			os.Exit(3)
+		}()
 	}
 	if len(os.Args) < 2 {
 		fmt.Fprintln(os.Stderr, "usage: govc <verify|check|...> ...")
